@@ -7,6 +7,7 @@ Driver for C07 (local write path of one node).  Ops:
   tx <stmt>;<stmt>;…                 one request; stmt = write mini-language | bad | badparam | missing ; `-` = no statement
   txt <secs> <stmt>;…                the same with `?timeout=<secs>`; additionally `slow` (a statement that outlives the timeout)
   txbig <n> <base> <len>             one request inserting rows `base .. base+n-1` into `t` (a = <len> bytes, b = index)
+  rv <peer> <stmt>;…                 peer 1..3 commits a transaction, its complete changeset is ingested by the node
   conc <k> <tx>|<tx>|…               k requests issued concurrently (row-disjoint, so every serialisation gives the same set)
   state                              own need / head / db version / announced versions / store dump
 -/
@@ -16,6 +17,7 @@ open Corro Corro.Crdt Corro.Node Corro.LocalTx Driver Driver.CrdtFmt
 structure State where
   n : LNode := LNode.fresh 0
   limit : Nat := 8192
+  peers : List Db := []
 
 def init : State := {}
 
@@ -158,6 +160,20 @@ def step (st : State) (toks : List String) : Option (State × String) :=
     let block := if acks = 0 then "-" else s!"{before + 1}-{before + acks}"
     pure ({ st with n := n' },
       s!"acks={acks} block={block} results={" & ".intercalate (sortBy (fun (a b : String) => a < b) outs)}")
+  | ["rv", peer, stmts] => do
+    let p ← peer.toNat?
+    if p = 0 ∨ p > 3 then none else
+    let ss ← (stmts.splitOn ";").mapM parseStmt
+    let pdb : Db := match st.peers.find? (·.site = p) with | some d => d | none => { site := p }
+    match localTx pdb ss with
+    | .error .constraint => pure (st, "err constraint")
+    | .error .badOp => none
+    | .ok (_, none) => pure (st, "noop")
+    | .ok (d, some (ver, chs)) =>
+      let peers := if st.peers.any (·.site = p) then st.peers.map (fun x => if x.site = p then d else x) else st.peers ++ [d]
+      let n' := st.n.remote chs
+      pure ({ st with n := n', peers := peers },
+        s!"ok p={p} v={ver} n={chs.length} last={maxSeq chs} dbv={n'.node.db.dbv} ch={clip (showChgs chs)}")
   | ["state"] =>
     let own := st.n.own
     some (st, s!"need={showRanges own.needed} head={own.max} dbv={st.n.node.db.dbv} announced={showNats (st.n.outbox.map (·.1))} stray=0 dump={clip (dumpMasked st.n.node.db)}")
